@@ -19,10 +19,11 @@ FR9 = [i / 10.0 for i in range(1, 10)]          # 1D interior lattice (fractions
 FR5 = [0.1, 0.3, 0.5, 0.7, 0.9]                 # per-axis lattice in 2D (interior 5x5, faces 5)
 T_FRACS = [1e-3, 0.05, 0.3, 2.0]                # times, in units of tscale = L^2/kappa
 T_INIT = [1e-2, 1e-3, 1e-4]                     # t -> 0+ sequence
-T_INF = 100.0                                   # t -> infinity
+T_INF = 1000.0                                  # t -> infinity (the weakest Robin pair of the alphabet has mu_0^2 = 0.17: exp(-17) at 100)
 H_INT = [4e-3, 2e-3, 1e-3]                      # interior stencil steps (fraction of the axis length), 4th order
 DT_REL = [2e-2, 1e-2, 5e-3]                     # time stencil steps (fraction of t), 4th order
-H_BND = [1e-3, 3e-4, 1e-4]                      # one-sided boundary stencils, 2nd order
+H_BND = [1e-3, 3e-4, 1e-4, 3e-5, 1e-5]          # one-sided boundary stencils, 2nd order (the small ones for fields that still
+                                                # carry the highest retained mode, k h << 1 with k ~ 300/len)
 R_AXIS = [1e-3, 1e-6, 1e-9]                     # r -> 0+ sequence (fractions of the radius)
 EPS = 1e-5                                      # absolute floor of the PDE balance, in units of S/tscale (second differences of
                                                 # a 1e4-term double series carry round-off ~1e-15 S / h^2 ~ 1e-9..1e-8 S/L^2)
@@ -465,11 +466,11 @@ def _gl(lo, hi, panels, n):
 def initial_weak(prob):
     """Weak form of T -> initial profile on the quarter annulus: the moments
     M_jw(t) = int int [T(r,theta,t) - T_init] sin(2 j theta) w(r) r dr dtheta / (S int int |sin(2 j theta) w| r dr dtheta),
-    j = 1, 2, w = 1, (r-a)/(b-a), by composite Gauss-Legendre quadrature (96 x 48 nodes); value = max |M| at
+    j = 1, 2, w = 1, (r-a)/(b-a), by composite Gauss-Legendre quadrature (64 x 32 nodes); value = max |M| at
     t = 1e-4 tscale, rise = largest increase along t = 1e-2, 1e-3, 1e-4."""
     a, b = prob.lo[0], prob.hi[0]
-    r, wr = _gl(a, b, 4, 24)
-    th, wt = _gl(prob.lo[1], prob.hi[1], 2, 24)
+    r, wr = _gl(a, b, 4, 16)
+    th, wt = _gl(prob.lo[1], prob.hi[1], 2, 16)
     Rg, Tg = np.meshgrid(r, th, indexing="ij")
     Wg = np.outer(wr * r, wt)
     P = np.vstack([Rg.ravel(), Tg.ravel()])
@@ -522,6 +523,6 @@ def axis(prob, tf):
     sp = np.abs(v6 - v9) / prob.S
     i = int(np.argmax(r))
     return {"finite": True, "value": float(r[i]), "spread": float(sp.max()),
-            "nontrivial": [0] if float(np.max(np.abs(v9 - v9.flat[0]))) > 0 or True else [],
+            "nontrivial": [0],
             "detail": {"point": [float(c) for c in Pf[:, i]], "T(0)": float(v0[i]), "T(1e-3)": float(v3[i]),
                        "T(1e-6)": float(v6[i]), "T(1e-9)": float(v9[i])}}
